@@ -104,7 +104,8 @@ class AstToDjangoQVisitor(visitor.NodeVisitor):
 
     def visit_Null(self, node: ast.Null) -> str:
         ":meta private:"
-        raise NotImplementedError("Should not be reached")
+        # Only `x eq null` and `x ne null` can be expressed, see visit_Compare.
+        raise ex.TypeException("expression", "null")
 
     def visit_Integer(self, node: ast.Integer) -> Value:
         ":meta private:"
